@@ -261,13 +261,25 @@ var _ Storage = &vrtStore{}
 
 const vrtIssuer = "https://idp.example.test"
 
+// vrtConfWant is the WantAuthRequestsSigned value of the provider under test.
+var vrtConfWant string
+
 // vrtNewProvider builds a provider through the public constructor: static
 // issuer, default endpoints, symbolic signature algorithm and signing wish.
-func vrtNewProvider(st *vrtStore) *Provider {
+func vrtNewProvider(st *vrtStore) *Provider { return vrtNewProviderWith(st, true) }
+
+// vrtNewProviderWith: with symbolicWant == false the IdP does not ask for
+// signed requests (nominal value of that dimension).
+func vrtNewProviderWith(st *vrtStore, symbolicWant bool) *Provider {
+	want := ""
+	if symbolicWant {
+		want = vrtStr("conf.wantAuthRequestsSigned")
+	}
+	vrtConfWant = want
 	conf := &Config{
 		IDPConfig: &IdentityProviderConfig{
 			SignatureAlgorithm:     vrtStr("conf.signatureAlgorithm"),
-			WantAuthRequestsSigned: vrtStr("conf.wantAuthRequestsSigned"),
+			WantAuthRequestsSigned: want,
 		},
 	}
 	p, err := NewProvider(st, StaticIssuer(vrtIssuer), conf)
